@@ -144,7 +144,9 @@ def run_C12(tier, seed, replay=None, procs=16):
     full = tier == "thorough"
     st_spec, nsc = _spec_check(max_pts=3 if full else 2)
     ps = number([replay["problem"]]) if replay else number(
-        FS.pool(["none", "makespan", "flowtime"] if full else ["none", "makespan"],
+        # max_bounded / min_bounded: the optimum equals the declared bound of the indicator, so the incremental
+        # optimiser leaves its loop through the "bound reached" exit before the enumeration starts
+        FS.pool(["none", "makespan", "flowtime", "max_bounded", "min_bounded"] if full else ["none", "makespan", "max_bounded"],
                 shapes=("plain", "optional", "select", "variable", "buffer", "single", "infeasible")))
     V, st_enum = SE.prepare(ps)
     cases = []
